@@ -64,11 +64,25 @@ pub struct Duration {
     pub(crate) nanosec: u32,
 }
 
+/// Normalizes a number of seconds and nanoseconds (the nanoseconds may be negative or exceed one
+/// second) to nanoseconds below one second. Values outside of the representable range saturate
+/// to the largest / smallest representable value, which keeps the arithmetic monotone.
+const fn saturating_normalize(sec: i64, nanosec: i64) -> (i32, u32) {
+    let sec = sec + nanosec.div_euclid(1_000_000_000);
+    let nanosec = nanosec.rem_euclid(1_000_000_000);
+    if sec > i32::MAX as i64 {
+        (i32::MAX, 999_999_999)
+    } else if sec < i32::MIN as i64 {
+        (i32::MIN, 0)
+    } else {
+        (sec as i32, nanosec as u32)
+    }
+}
+
 impl Duration {
     /// Construct a new [`Duration`] with the corresponding seconds and nanoseconds.
     pub const fn new(sec: i32, nanosec: u32) -> Self {
-        let sec = sec.saturating_add((nanosec / 1_000_000_000) as i32);
-        let nanosec = nanosec % 1_000_000_000;
+        let (sec, nanosec) = saturating_normalize(sec as i64, nanosec as i64);
         Self { sec, nanosec }
     }
 
@@ -87,15 +101,11 @@ impl Add<Duration> for Duration {
     type Output = Duration;
 
     fn add(self, rhs: Duration) -> Self::Output {
-        let mut sec = self.sec.saturating_add(rhs.sec);
-        let mut nanosec = (self.nanosec as u64) + (rhs.nanosec as u64);
-        let sec_in_nanosec = nanosec / 1_000_000_000;
-        nanosec -= sec_in_nanosec * 1_000_000_000;
-        sec = sec.saturating_add(sec_in_nanosec as i32);
-        Self {
-            sec,
-            nanosec: nanosec as u32,
-        }
+        let (sec, nanosec) = saturating_normalize(
+            self.sec as i64 + rhs.sec as i64,
+            self.nanosec as i64 + rhs.nanosec as i64,
+        );
+        Self { sec, nanosec }
     }
 }
 
@@ -103,14 +113,10 @@ impl Sub<Duration> for Duration {
     type Output = Duration;
 
     fn sub(self, rhs: Duration) -> Self::Output {
-        let mut sec = self.sec.saturating_sub(rhs.sec);
-        let nanosec_diff = (self.nanosec as i64) - (rhs.nanosec as i64);
-        let nanosec = if nanosec_diff < 0 {
-            sec = sec.saturating_sub(1);
-            (1_000_000_000 + nanosec_diff) as u32
-        } else {
-            self.nanosec - rhs.nanosec
-        };
+        let (sec, nanosec) = saturating_normalize(
+            self.sec as i64 - rhs.sec as i64,
+            self.nanosec as i64 - rhs.nanosec as i64,
+        );
         Self { sec, nanosec }
     }
 }
@@ -176,8 +182,7 @@ pub struct Time {
 impl Time {
     /// Create a new [`Time`] with a number of seconds and nanoseconds
     pub const fn new(sec: i32, nanosec: u32) -> Self {
-        let sec = sec.saturating_add((nanosec / 1_000_000_000) as i32);
-        let nanosec = nanosec % 1_000_000_000;
+        let (sec, nanosec) = saturating_normalize(sec as i64, nanosec as i64);
         Self { sec, nanosec }
     }
 
@@ -218,15 +223,11 @@ impl Add<Duration> for Time {
     type Output = Time;
 
     fn add(self, rhs: Duration) -> Self::Output {
-        let mut sec = self.sec.saturating_add(rhs.sec);
-        let mut nanosec = (self.nanosec as u64) + (rhs.nanosec as u64);
-        let sec_in_nanosec = nanosec / 1_000_000_000;
-        nanosec -= sec_in_nanosec * 1_000_000_000;
-        sec = sec.saturating_add(sec_in_nanosec as i32);
-        Self {
-            sec,
-            nanosec: nanosec as u32,
-        }
+        let (sec, nanosec) = saturating_normalize(
+            self.sec as i64 + rhs.sec as i64,
+            self.nanosec as i64 + rhs.nanosec as i64,
+        );
+        Self { sec, nanosec }
     }
 }
 impl AddAssign<Duration> for Time {
